@@ -90,6 +90,10 @@ func C01_AllRoutes() {
 		route = routes[verif.Choice("route", len(routes))]
 	}
 	v := symbolicValues()
+	if route == "POST /login" || route == "POST /register" {
+		// the application's body may implement only what these routes require (UserValuer)
+		f.w.Body.LoginOnly = verif.Choice("minimal-values", 2) == 1
+	}
 	form := map[string]string{"state": verif.String("q_state", 6), "error": verif.String("q_error", 2), "code": verif.String("q_code", 2)}
 	preUID, preHas := f.preS.Lookup2(authboss.SessionKey)
 	preTP, preTPHas := f.preS.Lookup2(totp2fa.SessionTOTPPendingPID)
